@@ -174,7 +174,7 @@ Section EqProcess.
     whole_run pm None cfg n f fs wp = Some o1 ->
     whole_run pm (Some EProcess) cfg n f fs wp = Some o2 ->
     uniq n = true -> Forall (inline_present n) fs ->
-    Forall (fun x => texts_ok (f_msgs x)) fs -> Forall macro_local n ->
+    Forall (fun x => texts_nonempty (f_msgs x)) fs -> Forall macro_local n ->
     (forall t, In t (map snd (o_reported o1)) <-> In t (map snd (o_reported o2)))
     /\ o_unmatched o2 = o_unmatched o1 /\ o_status o2 = o_status o1 /\ o_nomsg o2 = o_nomsg o1.
   Proof.
